@@ -323,6 +323,10 @@ def run_check(prop, tier, seed):
             ok = bool(rp.get('panic')) or bool(rp.get('crash'))
         else:
             ok = aid in (rp.get('failed') or [])
+            if ok and c['group'].get('lift') and notes.get('lift') != 'ok':
+                # reproduced inside the unit harness only: not observable through the public API
+                ok = False
+                notes = dict(notes, lift='unrealizable')
             if not ok and spec.get('race') and (rp.get('race') or 'same-result-concurrently' in (rp.get('failed') or [])):
                 ok = True   # frame breach confirmed natively as a data race / differing concurrent result
             if not ok and (rp.get('panic') or rp.get('crash')):
@@ -367,7 +371,7 @@ def run_check(prop, tier, seed):
         elif c['assert_id'] in (rp.get('failed') or []):
             inconcl.append('engine/native disagreement: %s fails natively on a witness the engine passed (%s, %s)' % (
                 c['assert_id'], c['job']['id'], describe_vec(c['v']['vector'])))
-        elif c['assert_id'] in (rp.get('reached') or []) or (rp.get('notes') or {}).get('lift'):
+        elif c['assert_id'] in (rp.get('reached') or []) or (rp.get('notes') or {}).get('lift') or c['group'].get('lift'):
             wit_ok += 1
             validated += 1
         else:
